@@ -562,7 +562,7 @@ class _RS:
     R = 0
 
 
-STUCK_S = 25.0     # an in-memory consumer that does not come back within this is stuck
+STUCK_S = 15.0     # an in-memory consumer that does not come back within this is stuck
 
 
 class _WouldBlock(BaseException):
@@ -914,7 +914,20 @@ def run_perm_case(bench, rec, c, order, L, consumer, ack_early=False, tag=''):
         return
     finally:
         bench.on_put = None
-    if bench.stuck >= 2:
+    if consumer == 'thread' and out[0] == 'items' and out[2] == 'stuck':
+        # a blocked consumer that never came back is a clock-based verdict.  If the same case with a
+        # consumer that never blocks is refuted logically, report that instead (no clock, no re-run)
+        from vmon.core import Rec
+        scratch = Rec()
+        run_perm_case(bench, scratch, c, order, L, 'lazy', ack_early=ack_early)
+        if scratch.violations:
+            for v in scratch.violations[:2]:
+                rec.violation(v['kind'], v['attrs'], blocked_consumer_also_stuck=True, **v['detail'])
+            rec.case()
+            if bench.stuck >= 2:
+                raise AbortSpec()
+            return False
+    if bench.stuck >= 2 and out[0] == 'items' and out[2] == 'stuck':
         judge(rec, c, out, 'perm', extra={'completion_order': order, 'length_announced_after': L,
                                           'consumer': consumer, 'events': events})
         raise AbortSpec()
